@@ -10,7 +10,7 @@ import GoatSpec.Drv.Cmd
 open GoatSpec GoatSpec.Drv
 
 /-- stateless handlers -/
-def handlers : List (List String → Option String) := [handleText, handleRuntime, handlePaths, handleIds, handleConfig, handleCmd]
+def handlers : List (List String → Option String) := [handleText, handleTextFile, handleRuntime, handlePaths, handleIds, handleConfig, handleCmd]
 
 /-- `load <abstract file>` keeps one current file for the `marks` / `scopes` / `judge:…` requests
     that follow (a corpus file is loaded once and queried many times) -/
